@@ -104,6 +104,11 @@ func (c16) Gen(r *simrt.Rand, idx int, tier string) *Case {
 		g.MaxCom = 3
 	}
 	c := &Case{Sub: "ledger", Gen: &g, Today: "2030-01-01"}
+	if idx%12 == 7 {
+		// a ledger of several buffers' length, delivered through a failing standard output
+		c.Sub = "stdout-fault"
+		g.MinTxn, g.MaxTxn = 40, 90
+	}
 	for try := 0; try < 20; try++ {
 		c.J = Gen(r, g)
 		if len(c.J.Commodities()) >= 2 {
@@ -134,7 +139,53 @@ func (c16) Gen(r *simrt.Rand, idx int, tier string) *Case {
 	return c
 }
 
+// evalStdoutFault: C16 speaks about the text transcode produces. When a write to standard output
+// fails or is cut short, text may be missing at the end, but what has been delivered must be what
+// the undisturbed run delivers at that position: nothing repeated, reordered or invented. Every
+// Write call of the undisturbed run (up to six) is failed in turn: cut short after 1, 100 or
+// all-but-one bytes (io.ErrShortWrite), EPIPE, ENOSPC; once as a transient condition, once for good.
+func evalStdoutFault(c *Case) (*Violation, bool) {
+	files := c.L.Files(c.J)
+	argv := []string{"transcode", "-v", c.Val, c.L.Main()}
+	base := Run(c.specFor(c.Scheds[0], files, argv))
+	if !base.OK() || len(base.Stdout) == 0 {
+		noteVacuous(c.Sub, base)
+		return nil, true
+	}
+	calls := (len(base.Stdout) + 4095) / 4096 // bufio's default buffer
+	if calls > 6 {
+		calls = 6
+	}
+	fired := false
+	for k := 1; k <= calls; k++ {
+		for _, ft := range []simrt.StdoutFault{{Kind: "short", N: 1}, {Kind: "short", N: 100}, {Kind: "short", N: 1 << 30}, {Kind: "epipe"}, {Kind: "enospc"}} {
+			for _, sticky := range []bool{false, true} {
+				ft.Call, ft.Sticky = k, sticky
+				sp := c.specFor(c.Scheds[0], files, argv)
+				f := ft
+				sp.StdoutFault = &f
+				o := Run(sp)
+				if o.Outcome != simrt.OutReturned && o.Outcome != simrt.OutExit {
+					return &Violation{Signature: "abnormal-end:" + o.Outcome, Msg: fmt.Sprintf("transcode with a failing standard output (%+v) ended with %s %s", ft, o.Outcome, o.PanicValue), Detail: o.PanicStack}, false
+				}
+				if o.Probes["stdout-fault-fired"] == 0 {
+					continue
+				}
+				fired = true
+				Ctr.Faults["stdout:"+ft.Kind]++
+				if !strings.HasPrefix(base.Stdout, o.Stdout) {
+					return &Violation{Signature: "stdout-not-a-prefix-after-write-fault", Msg: fmt.Sprintf("write call %d on standard output fails (%s, %d bytes accepted, sticky=%v): the text delivered (%d bytes, exit status %d) is not a prefix of the undisturbed ledger (%d bytes)", k, ft.Kind, ft.N, sticky, len(o.Stdout), o.ExitCode, len(base.Stdout)), Detail: firstDiff(base.Stdout, o.Stdout)}, false
+				}
+			}
+		}
+	}
+	return nil, !fired
+}
+
 func (c16) Eval(c *Case) (*Violation, bool) {
+	if c.Sub == "stdout-fault" {
+		return evalStdoutFault(c)
+	}
 	files := c.L.Files(c.J)
 	o := Run(c.specFor(c.Scheds[0], files, []string{"transcode", "-v", c.Val, c.L.Main()}))
 	if o.Outcome != simrt.OutReturned && o.Outcome != simrt.OutExit {
